@@ -129,3 +129,21 @@ def check(ctx):
             r2 = ctx.call_method(I2, s2, o2, "transform", args[0])
             c = P.cls(cq)
             ctx.compare("R-SELF", f"{c.name}.fit_transform == fit().transform() [weights={weighted}]", N, r1, r2, ctx.site(P.method(c, "fit_transform")))
+        # ... also on an estimator that was used before with the other setting of a switch (nothing the earlier
+        # call left on the object may answer for the new data)
+        for flag in ("with_center", "with_trace"):
+            for first in (True, False):
+                from ..harness import pyval as _pyval
+
+                args0 = tuple(arr(a_.term.args[0] + "0", *[repr(d_) for d_ in a_.shape]) for a_ in mk())
+                args = mk()
+                I1, s1 = ctx.interp(assume=protocols.assume_default), State()
+                o1 = ctx.construct(I1, s1, cq, **{flag: first})
+                ctx.call_method(I1, s1, o1, "fit_transform", *args0)
+                s1.heap[o1.obj.id][flag] = _pyval(not first)
+                r1 = ctx.call_method(I1, s1, o1, "fit_transform", *args)
+                I2, s2 = ctx.interp(assume=protocols.assume_default), State()
+                o2 = ctx.construct(I2, s2, cq, **{flag: not first})
+                ctx.call_method(I2, s2, o2, "fit", *args)
+                r2 = ctx.call_method(I2, s2, o2, "transform", args[0])
+                ctx.compare("R-SELF", f"{c.name}.fit_transform == fit().transform() after an earlier use with {flag}={first} [{flag}={not first}]", N, r1, r2, ctx.site(P.method(c, "fit_transform")))
